@@ -223,6 +223,11 @@ func init() {
 		ps := []*Pass{
 			{Name: "G-simple", Space: spaceG(1, d, 0, simple), Eval: stdEval("C12", staticGrid(g), or),
 				Bound: fmt.Sprintf("all simple edge lists with <=%d edges x {greedy,dfs} x {ns,lp} x 4 size-aware positioners x polyline", d)},
+			{Name: "G6n5-simple-widths", Space: spaceG(5, 6, 5, simple), Eval: stdEval("C12", staticGrid(mon([]Cfg{
+				{P2: 0, P4: 0, P5: 2, SZ: 2, NS: 4, LS: 8, TH: -1}, {P2: 1, P4: 0, P5: 2, SZ: 2, Rot: 3, NS: 4, LS: 8, TH: -1},
+				{P2: 0, P4: 0, P5: 2, SZ: 2, Rot: 5, NS: 4, LS: 8, TH: -1}, {P2: 0, P4: 3, P5: 2, SZ: 2, Rot: 1, NS: 4, LS: 8, TH: -1},
+				{P2: 1, P4: 1, P5: 2, SZ: 2, Rot: 6, NS: 4, LS: 8, TH: -1}, {P2: 0, P4: 2, P5: 2, SZ: 2, Rot: 2, NS: 4, LS: 8, TH: -1}})), or),
+				Bound: "all simple edge lists with 5..6 edges on <=5 nodes x heterogeneous widths (size table in 6 rotations) x {sink x3, ns, valign, packright}: the order chosen by crossing minimisation must survive positioning with wide next to narrow nodes"},
 			{Name: "layered-3x4", Space: spaceLayered([]int{3, 4}, false), Eval: stdEval("C12", staticGrid(g1), or),
 				Bound: "every 2-layer graph on up to 3+4 nodes (all 4095 edge subsets, 2 edge orders) x {ns,lp} x {sink,valign}"},
 			{Name: "layered-2x3x2", Space: spaceLayered([]int{2, 3, 2}, false), Eval: stdEval("C12", staticGrid(g1), or),
